@@ -335,6 +335,13 @@ func (s *StreamJoin) receiveRecord(ctx ExecutionContext, produce ProduceFn, myRe
 		}
 		key[i] = value
 	}
+	for i := range key {
+		if key[i].TypeID == octosql.TypeIDNull {
+			// The key columns come from equality conditions and NULL is equal to nothing, not even to NULL:
+			// this record can't match any record, now or later.
+			return nil
+		}
+	}
 
 	if !oneStreamRemains {
 		// Update count in my record tree
